@@ -224,3 +224,112 @@ Example C12_ex_fault_run :
                 /\ map r_cls rs = [errclass CfgC e_EACCES; errclass CfgC e_EACCES; errclass CfgC e_EACCES]
                 /\ map r_ocount rs = [2; 0; 0] /\ w_fail (g_w g') = 1.
 Proof. exact ex_fault_run. Qed.
+
+(* ================================================================== EVERY SCHEDULE (appended block; C12/FileSched.v, MPI/SemShared.v)
+   The theorems above are about the global sequential model (ranks take their turns in rank order).  The theorems below are
+   about the PER-RANK PROGRAMS (`coll_prog`, the ones co-simulated against the real code) in the interleaving semantics of
+   MPI/SemShared.v: Send / Recv (named source, ANY_TAG) over FIFO channels with buffered sends; Barrier and Bcast happen when
+   all ranks have arrived; every stdio call is a LOCAL step of the calling rank that reads and updates the SHARED file system
+   state (`fsys`: the world of the global model + the FILE* of every rank) - two ranks' stdio steps do not commute, and nothing
+   in the semantics keeps them apart.  `crun P m s s'` = some schedule leads from s to s' in m steps. *)
+From ScV Require Import MPI.SemShared C12.FileSched.
+
+(* the generic theorem: ONE schedule of the token-instrumented semantics that ends in a final state without a race decides
+   EVERY schedule of the plain semantics (any shared state, any effect function, any programs) *)
+Theorem C12_one_schedule_all_schedules (Sh : Type) P is_local eff creply gives ctok (s0 f : st Sh) tk0 tkf n :
+  irun Sh P is_local eff creply gives ctok n (Good s0 tk0) (Good f tkf) -> final Sh P f ->
+  forall m s', run Sh P is_local eff creply m s0 s' ->
+    (m <= n)%nat /\ run Sh P is_local eff creply (n - m) s' f
+    /\ (final Sh P s' -> s' = f /\ m = n)
+    /\ (final Sh P s' \/ exists l s'', step Sh P is_local eff creply s' l s'')
+    /\ (forall r1 r2, local_at Sh P is_local s' r1 -> local_at Sh P is_local s' r2 -> r1 = r2).
+Proof. exact (one_schedule_independent Sh P is_local eff creply gives ctok s0 tk0 f tkf n). Qed.
+Print Assumptions C12_one_schedule_all_schedules.
+
+(* collective read / write of the fallback, ANY P >= 1 (= number of entries of args), ANY element size, counts, contents, offsets,
+   ANY fault plan (plan_ok is not even needed), any initial world and stream of rank 0: whenever the global model predicts a
+   result (g_coll <> None, i.e. none of the SC_CHECK_ABORTs on fseek / fflush / fclose / re-open fires), then from the state in
+   which every rank starts its coll_prog (channels empty, rank 0 holding its stream):
+     - every schedule has at most n steps and can be completed to `coll_final` in exactly n steps (EVERY MAXIMAL RUN TERMINATES);
+     - every schedule that ends, ends in `coll_final`: rank r has returned class / ocount / buffer of the r-th result of g_coll,
+       rank 0 holds the re-opened stream, all channels are empty, the world is the world g_coll predicts (file content, call
+       counters, failed calls, open streams);
+     - no reachable state is stuck;
+     - at every reachable state at most one rank has a stdio call as its next action (mutual exclusion by the token). *)
+Theorem C12_coll_every_schedule wr size args g g' rs : 0 < len args ->
+  g_coll wr g size args = Some (g', rs) ->
+  let P := len args in
+  let start := coll_state wr P size args (g_w g) (g_s0 g) in
+  let fin := coll_final P g' rs in
+  cfinal P fin
+  /\ exists n, forall m s', crun P m start s' ->
+       (m <= n)%nat /\ crun P (n - m) s' fin
+       /\ (cfinal P s' -> s' = fin /\ m = n)
+       /\ (cfinal P s' \/ exists l s'', cstep P s' l s'')
+       /\ (forall r1 r2, local_at fsys P c12_local s' r1 -> local_at fsys P c12_local s' r2 -> r1 = r2).
+Proof. exact (coll_every_schedule wr size args g g' rs). Qed.
+Print Assumptions C12_coll_every_schedule.
+
+(* ... and when the global model predicts an ABORT (g_coll = None: read_at_all's fseek, an fflush, an fclose, or the re-open by
+   rank 0 failed - SC_CHECK_ABORT, i.e. MPI_Abort in the real code), for every fault plan with plan_ok and rank 0 holding a stream:
+   EVERY schedule leads to one and the same TERMINAL state f (no step possible) in which some rank has called SC_ABORT (its
+   program is `abort`) and the others wait for ever at the barrier / the broadcast / for the token: every schedule has at most n
+   steps, can be completed to f, every state without a step IS f, every other reachable state has a step, and again at most
+   one rank is ever at a stdio call.  Together with C12_coll_every_schedule: under plan_ok the outcome of the collective
+   operation - result or abort - is the one of the global model in every schedule. *)
+Theorem C12_coll_abort_every_schedule wr size args g : 0 < len args ->
+  plan_ok (w_plan (g_w g)) -> is_some (g_s0 g) = true ->
+  g_coll wr g size args = None ->
+  let P := len args in
+  let start := coll_state wr P size args (g_w g) (g_s0 g) in
+  exists f n, (exists r, 0 <= r < P /\ spr f r = abort)
+    /\ (forall l s', ~ cstep P f l s')
+    /\ forall m s', crun P m start s' ->
+         (m <= n)%nat /\ crun P (n - m) s' f
+         /\ ((forall l s'', ~ cstep P s' l s'') -> s' = f /\ m = n)
+         /\ (s' = f \/ exists l s'', cstep P s' l s'')
+         /\ (forall r1 r2, local_at fsys P c12_local s' r1 -> local_at fsys P c12_local s' r2 -> r1 = r2).
+Proof. exact (coll_abort_every_schedule wr size args g). Qed.
+Print Assumptions C12_coll_abort_every_schedule.
+
+(* the property sentence for the fallback: "when all ranks collectively write blocks ..., the file contains exactly these blocks
+   in rank order" - in EVERY schedule: no reachable state is stuck, and whenever all ranks have returned, the file is the old
+   content followed by the blocks in rank order, every rank has returned SUCCESS with ocount = count, rank 0 holds a stream *)
+Theorem C12_coll_write_every_schedule g c fl op lg s size args :
+  wst (g_w g) c fl op lg -> g_s0 g = Some s -> at_end s c -> args <> [] -> Forall (wf_arg size) args ->
+  forall m s', crun (len args) m (coll_state true (len args) size args (g_w g) (g_s0 g)) s' ->
+    (cfinal (len args) s' \/ exists l s'', cstep (len args) s' l s'')
+    /\ (cfinal (len args) s' ->
+          content (fs_w (ssh s')) = c ++ concat (map a_data args)
+          /\ forall r, 0 <= r < len args ->
+               spr s' r = k_ret (SUCCESS CfgC) (a_count (arg_of args r)) [] (mkH true (r =? 0))).
+Proof. exact (coll_write_every_schedule g c fl op lg s size args). Qed.
+Print Assumptions C12_coll_write_every_schedule.
+
+(* the WHOLE SCENARIO of the harness (configuration C): any sequence of open / close / collective read or write / explicit-offset
+   read or write by rank 0, any P >= 1, any initial file node, any fault plan with plan_ok, every OColl with one argument per
+   rank; whenever the global model g_scen predicts a result (no SC_CHECK_ABORT fires): from the state in which every rank runs
+   its `scen_prog_C` EVERY schedule terminates in `scen_final` - rank r has printed exactly what g_scen prints for it, operation
+   by operation; the world is the one of g_scen (`erase`: without the ledger of allocated contexts, which is no action of the
+   programs); rank 0 holds the stream g_scen says, no other rank holds one; all channels are empty - after the same number of
+   steps; no reachable state is stuck; at most one rank is ever at a stdio call. *)
+Theorem C12_scenario_every_schedule P ops node pl g' outs : 0 < P -> plan_ok pl -> ops_ok P ops ->
+  g_scen CfgC P (gstate0 node pl) ops = Some (g', outs) ->
+  let start := scen_state P ops node pl in
+  let fin := scen_final P g' outs in
+  cfinal P fin
+  /\ exists n, forall m s', crun P m start s' ->
+       (m <= n)%nat /\ crun P (n - m) s' fin
+       /\ (cfinal P s' -> s' = fin /\ m = n)
+       /\ (cfinal P s' \/ exists l s'', cstep P s' l s'')
+       /\ (forall r1 r2, local_at fsys P c12_local s' r1 -> local_at fsys P c12_local s' r2 -> r1 = r2).
+Proof. exact (scen_every_schedule P ops node pl g' outs). Qed.
+Print Assumptions C12_scenario_every_schedule.
+
+(* all maximal schedules of small instances enumerated by computation (tests of the statements; P = 3 and P = 1, with faults) *)
+Example C12_ex_sched_write : fst (test_coll true 2 targs (world0 (File [100; 101]) tplan2) (Some (mkS MAppend 2))) = true.
+Proof. exact test_write_enospc. Qed.
+Example C12_ex_sched_read : fst (test_coll false 2 targs (world0 (File [1;2;3;4;5;6;7;8;9]) tplan2) (Some (mkS MRead 0))) = true.
+Proof. exact test_read_short. Qed.
+Example C12_ex_sched_scenario : fst (test_scen 3 tops Absent tplan2) = true.
+Proof. exact test_scen_faults. Qed.
